@@ -1,4 +1,5 @@
 """R-RESET, R-SRCCONST (C05)."""
+from . import compdb
 from .prog import AnalysisBroken, key, strip, walk, const_value, resolve_key
 from .rules_cg import conversion_roots
 
@@ -205,3 +206,72 @@ def r_srcconst(P, chk):
     chk.floor(rid, nf, 250, "functions in the conversion cone")
     for e in sorted(SRC_EXCEPT):
         chk.notes.append("R-SRCCONST exception %s: documented in-place replacement of an OPML/ITMZ source" % e)
+
+
+# ---------------------------------------------------------------------------
+# R-INCDEC (C05, C07): a counter field raised on entry is lowered again on every path out
+
+def r_incdec(P, chk):
+    rid = "R-INCDEC"
+    chk.rule(rid, "a field of the engine / scratch pad that a function both increments and decrements (depth counters, skip "
+                  "counters) is decremented on every CFG path from each increment to the function's exit: no early return "
+                  "leaks an increment into the next conversion")
+    n = 0
+    for f in P.all_funcs:
+        if not P.first_party(f) or f.unit.base in compdb.GENERATED_UNITS:
+            continue
+        incs, decs = {}, {}
+        for x in f.walk():
+            k = None
+            if x["k"] == "UnaryOperator" and x["op"] in ("post++", "pre++", "post--", "pre--"):
+                t = strip(x["c"][0])
+                if t is not None and t["k"] == "MemberExpr":
+                    (incs if "++" in x["op"] else decs).setdefault(key(t), []).append(x)
+            elif x["k"] == "CompoundAssignOperator" and x["op"] in ("+=", "-=") and const_value(x["c"][1]) == 1:
+                t = strip(x["c"][0])
+                if t is not None and t["k"] == "MemberExpr":
+                    (incs if x["op"] == "+=" else decs).setdefault(key(t), []).append(x)
+        both = set(incs) & set(decs)
+        if not both:
+            continue
+        cfg = f.cfg
+        pos = cfg.positions()
+
+        def where_of(x):
+            z = x
+            while z is not None and z["i"] not in pos:
+                z = f.parent(z)
+            return pos[z["i"]] if z is not None else None
+        for k in sorted(both):
+            dpos = {}
+            for d in decs[k]:
+                w = where_of(d)
+                if w is not None:
+                    dpos.setdefault(w[0], []).append(w[1])
+            for inc in incs[k]:
+                w = where_of(inc)
+                if w is None:
+                    continue
+                n += 1
+                b0, i0 = w
+                leak = False
+                if not any(i > i0 for i in dpos.get(b0, ())):
+                    seen, st = set(), list(cfg.blocks[b0].rsucc)
+                    while st:
+                        b = st.pop()
+                        if b in seen:
+                            continue
+                        seen.add(b)
+                        if b in dpos:
+                            continue
+                        if b == cfg.exit:
+                            leak = True
+                            break
+                        st.extend(cfg.blocks[b].rsucc)
+                chk.obligation(rid, "%s %s: %s++ is matched by %s-- on every path to the exit" % (f.where(inc), f.name, k, k), ok=not leak)
+                if leak:
+                    chk.violation(rid, "incdec:%s:%s:%s" % (f.unit.base, f.name, k), f.where(inc),
+                                  "%s is incremented here but some path to the function's exit (an early return) never decrements "
+                                  "it: the counter drifts across calls / conversions" % k)
+    chk.floor(rid, n, 4, "paired counter increments")
+    chk.analysed[rid] = {"paired_increments": n}
